@@ -172,3 +172,20 @@ def _(I, args, kwargs):
 
         raise Unsupported("int.from_bytes big-endian / signed on symbolic bytes")
     return _from_bytes_le.apply(I, [args[0]])
+
+
+import asyncio as _asyncio
+
+from pyvc.contracts import constructor
+
+
+@constructor(_asyncio.Future)
+def _(I, cls, args, kwargs):
+    f = SFuture(0)
+    f.fresh_in_call = True
+    ctl = getattr(I, "await_ctl", None)
+    pr = getattr(ctl.con, "created_future_promise", None) if ctl is not None else None
+    if pr is not None:
+        f.ghost["promise"] = pr
+    I.ctx.emit("loop.create_future", f)
+    return f
